@@ -642,6 +642,37 @@ def _correlated_must_pass(mb, g, start_bb, through):
         if len(succ) != 1:
             break
         b = succ[0]
+    # a flag tested on the way *into* start_bb: the block is entered only through one edge of a switch on a local that is
+    # defined once (`let is_x = ..; if is_x { set }`): on every path from here the flag has that value
+    def _single_def(l):
+        n = 0
+        for bl in mb["blocks"]:
+            n += sum(1 for s_ in bl["stmts"] if s_["k"] == "assign" and s_["lhs"]["l"] == l and not s_["lhs"].get("p"))
+            t_ = bl.get("term") or {}
+            n += 1 if t_.get("k") == "call" and t_["dest"]["l"] == l and not t_["dest"].get("p") else 0
+        return n == 1
+    cur = start_bb
+    hops = 0
+    while hops < 6 and len(g.pred[cur]) == 1:
+        hops += 1
+        pb = g.pred[cur][0]
+        t = mb["blocks"][pb].get("term") or {}
+        if t.get("k") == "switch":
+            p = place_of(t["discr"])
+            if p is not None and not p.get("p") and p.get("ty", "bool") == "bool":
+                flag = p["l"]
+                for s_ in mb["blocks"][pb]["stmts"]:
+                    if s_["k"] == "assign" and s_["lhs"]["l"] == flag and s_["rv"].get("rk") == "use":
+                        q = place_of(s_["rv"]["op"])
+                        if q is not None and not q.get("p"):
+                            flag = q["l"]
+                vals = [v for v, bb in t["targets"] if bb == cur]
+                if _single_def(flag) and flag not in consts:
+                    if len(vals) == 1 and t.get("otherwise") != cur:
+                        consts[flag] = bool(vals[0])
+                    elif not vals and t.get("otherwise") == cur and [v for v, _ in t["targets"]] == [0]:
+                        consts[flag] = True
+        cur = pb
     # locals that are never re-assigned elsewhere with a different constant on the way: keep simple — flags only
     visited = set()
     st = [start_bb]
